@@ -1,8 +1,9 @@
 import Verif.Driver.Align
 import Verif.Driver.SoundClass
+import Verif.Driver.Cluster
 open Verif.Driver
 
-def handlers : List (List (List String) → Option String) := [handleAlign, handleSC]
+def handlers : List (List (List String) → Option String) := [handleAlign, handleSC, handleCluster]
 
 def dispatch (line : String) : String :=
   let fs := fields line
